@@ -83,5 +83,28 @@ CHECKS["C11"] = {
     "ref": "DESIGN.md 5 C11, 10 seg",
 }
 
+CHECKS['C14'] = {'note': 'Partial proof: see coq/Props/C14.v header. Found and drove the repair of 4 defects (74e5b3c, b259a49, 52ced73, d688ba5).',
+ 'ref': 'DESIGN.md 5 C14, 10 conc',
+ 'technique': 'Rocq proof (schedule-quantified invariants) + forced-schedule model/implementation correspondence + oracles',
+ 'text': "Kernel-checked for all schedules of the executable L3 model (Close, any number of API callers, rotation goroutine; atomic steps = the code's atomic "
+         'actions and hook points): calls started after the closed flag is set return ErrClosed and a second Close is a no-op (C14_after_close), writeMu '
+         'mutual exclusion. For states satisfying the protocol invariant Inv1 (executable, tested, holds initially; inductiveness proved only for pc '
+         'consistency/roles/mutex): no step panics (C14_racing_calls_partial), some thread is enabled while a caller is unfinished (C14_no_deadlock_partial), '
+         'the system cannot rest with the rotation goroutine alive after Close (C14_rotator_exits_partial). The model is tied to wal.go/state.go by forcing '
+         'the same schedules on the real WAL through the verif hook points (every method x window x Close stage, pending rotation, random) and comparing '
+         'outcomes; model-independent oracles: recover(), deadlock watchdog, ErrClosed after Close, rotation goroutine exit, handle accounting, reopen. '
+         "Deadlock freedom and rotator exit for all reachable states, handle release and 'only result or ErrClosed' are NOT proved (partial): they are decided "
+         'by those oracles.'}
+
+CHECKS['C06'] = {'note': 'Partial proof: see coq/Props/C06.v header.',
+ 'ref': 'DESIGN.md 5 C06, 10 conc',
+ 'technique': 'Rocq proof (schedule-quantified invariants) + forced-schedule correspondence + history checker + race detector',
+ 'text': 'Kernel-checked for all schedules of the same L3 model (writer: append with offsets publish / write / fsync / commitIdx store, rotation, head and '
+         'tail truncation with re-append; any number of readers): an entry becomes visible only after its batch is synced and readers read below the synced '
+         'prefix (C06_visible_only_durable); model-level absence of read/write conflicts on file contents (C06_no_conflict_partial, partial by nature). '
+         'Linearizability and use-after-close freedom are NOT proved: forced schedules around the protocol windows are compared with the extracted model, and '
+         "every read of every forced and free-running (8 readers, 1 writer) history is checked read-by-read against the writer's version log; the stress also "
+         'runs under the race detector in the thorough tier.'}
+
 _pending = "check not built yet in this round (machinery under construction; see DESIGN.md section 10)"
 NOT_APPLICABLE = {("C%02d" % i): _pending for i in range(1, 21) if ("C%02d" % i) not in CHECKS}
